@@ -1,7 +1,151 @@
 import SpVerif.Model.Bounds
+/-!
+# C13 — bounds and total_bounds are the tight extents of the geometry
+
+Theorems about the scan model `Bounds.axisRange` / `totalBounds` (`total_bounds_interleaved(_1d)`,
+`bounds_interleaved`): per axis the result is exactly (min, max) over the finite coordinates, NaN iff there is none;
+the total bounds are the NaN-ignoring union of the per-element rows (which is what the Dask fold, `GeoSeries` and the
+R-tree root compute), so every row lies inside the total bounds.
+-/
 namespace SpVerif
 open Bounds
+
 /-- a non-finite coordinate never changes a range (it is skipped by `np.isfinite`) -/
 theorem C13_nonfinite_skipped (r : Range) : r.add .nan = r ∧ r.add .pinf = r ∧ r.add .ninf = r := by
   cases r <;> simp [Range.add]
+
+theorem union_none_right (r : Range) : r.union none = r := by cases r <;> rfl
+theorem union_none_left (r : Range) : Range.union none r = r := by cases r <;> rfl
+
+theorem union_assoc (a b c : Range) : (a.union b).union c = a.union (b.union c) := by
+  cases a with
+  | none => simp [union_none_left]
+  | some x =>
+    cases b with
+    | none => simp [union_none_left, union_none_right]
+    | some y =>
+      cases c with
+      | none => simp [union_none_right]
+      | some z =>
+        obtain ⟨a1, a2⟩ := x; obtain ⟨b1, b2⟩ := y; obtain ⟨c1, c2⟩ := z
+        simp only [Range.union, Option.some.injEq, Prod.mk.injEq]
+        constructor <;> omega
+
+theorem add_eq_union (r : Range) (c : Coord) : r.add c = r.union (Range.add none c) := by
+  cases c <;> cases r <;> simp [Range.add, Range.union]
+
+theorem foldl_add (cs : List Coord) (acc : Range) : cs.foldl Range.add acc = acc.union (axisRange cs) := by
+  induction cs generalizing acc with
+  | nil => simp [axisRange, union_none_right]
+  | cons c cs ih =>
+    simp only [List.foldl_cons, axisRange]
+    rw [ih, ih (Range.add none c), add_eq_union acc c, union_assoc]
+
+/-- the scan is a monoid homomorphism: the range of a concatenation is the NaN-ignoring union of the ranges -/
+theorem C13_range_append (xs ys : List Coord) : axisRange (xs ++ ys) = (axisRange xs).union (axisRange ys) := by
+  unfold axisRange
+  rw [List.foldl_append, foldl_add]
+  rfl
+
+theorem axisRange_cons (c : Coord) (cs : List Coord) : axisRange (c :: cs) = (Range.add none c).union (axisRange cs) := by
+  have := C13_range_append [c] cs
+  simpa [axisRange] using this
+
+/-- **tightness per axis**: NaN iff no coordinate is finite; otherwise both ends are attained by finite coordinates of the
+input and every finite coordinate lies between them -/
+theorem C13_axis_tight (cs : List Coord) :
+    match axisRange cs with
+    | none => ∀ v, Coord.fin v ∉ cs
+    | some (lo, hi) => Coord.fin lo ∈ cs ∧ Coord.fin hi ∈ cs ∧ ∀ v, Coord.fin v ∈ cs → lo ≤ v ∧ v ≤ hi := by
+  induction cs with
+  | nil => simp [axisRange]
+  | cons c cs ih =>
+    rw [axisRange_cons]
+    cases hr : axisRange cs with
+    | none =>
+      rw [hr] at ih
+      simp only [union_none_right]
+      cases c with
+      | fin v =>
+        simp only [Range.add]
+        refine ⟨by simp, by simp, ?_⟩
+        intro w hw
+        simp only [List.mem_cons, Coord.fin.injEq] at hw
+        rcases hw with rfl | hw
+        · omega
+        · exact absurd hw (ih w)
+      | nan => simp only [Range.add]; intro v hv; simp only [List.mem_cons] at hv; rcases hv with h | h; cases h; exact ih v h
+      | pinf => simp only [Range.add]; intro v hv; simp only [List.mem_cons] at hv; rcases hv with h | h; cases h; exact ih v h
+      | ninf => simp only [Range.add]; intro v hv; simp only [List.mem_cons] at hv; rcases hv with h | h; cases h; exact ih v h
+    | some x =>
+      obtain ⟨lo, hi⟩ := x
+      rw [hr] at ih
+      simp only at ih
+      obtain ⟨hlo, hhi, hall⟩ := ih
+      cases c with
+      | fin v =>
+        simp only [Range.add, Range.union]
+        refine ⟨?_, ?_, ?_⟩
+        · by_cases h : v ≤ lo
+          · rw [Int.min_eq_left h]; simp
+          · rw [Int.min_eq_right (by omega)]; simp [hlo]
+        · by_cases h : hi ≤ v
+          · rw [Int.max_eq_left h]; simp
+          · rw [Int.max_eq_right (by omega)]; simp [hhi]
+        · intro w hw
+          simp only [List.mem_cons, Coord.fin.injEq] at hw
+          rcases hw with rfl | hw
+          · omega
+          · have := hall w hw; omega
+      | nan =>
+        simp only [Range.add, union_none_left]
+        exact ⟨by simp [hlo], by simp [hhi], fun w hw => hall w (by simpa using hw)⟩
+      | pinf =>
+        simp only [Range.add, union_none_left]
+        exact ⟨by simp [hlo], by simp [hhi], fun w hw => hall w (by simpa using hw)⟩
+      | ninf =>
+        simp only [Range.add, union_none_left]
+        exact ⟨by simp [hlo], by simp [hhi], fun w hw => hall w (by simpa using hw)⟩
+
+/-- a missing element, or one without vertices, has the all-NaN row -/
+theorem C13_inert_row : totalBounds [] = Row.empty := rfl
+
+/-- **total_bounds is the NaN-ignoring union of the rows**: for the vertices of two groups of elements (and, by
+induction, of any partitioning into elements / partitions / pages) -/
+theorem C13_total_is_union_of_rows (vs ws : List (Coord × Coord)) :
+    totalBounds (vs ++ ws) = (totalBounds vs).union (totalBounds ws) := by
+  simp only [totalBounds, Row.union, List.map_append, C13_range_append]
+
+/-- the fold over any list of element rows (what `DaskGeoSeries.total_bounds`, `np.nanmin/nanmax` over partition bounds,
+and the R-tree's bottom-up union compute) equals the bounds of all vertices together -/
+theorem C13_fold_of_rows (els : List (List (Coord × Coord))) :
+    (els.map totalBounds).foldl Row.union Row.empty = totalBounds els.flatten := by
+  have gen : ∀ (acc : List (Coord × Coord)), (els.map totalBounds).foldl Row.union (totalBounds acc) = totalBounds (acc ++ els.flatten) := by
+    induction els with
+    | nil => intro acc; simp
+    | cons e es ih =>
+      intro acc
+      simp only [List.map_cons, List.foldl_cons, List.flatten_cons]
+      rw [← C13_total_is_union_of_rows, ih, List.append_assoc]
+  have := gen []
+  simpa [C13_inert_row] using this
+
+/-- every row lies inside the total bounds: per axis, a defined row range is contained in the (then defined) total range -/
+theorem C13_row_inside_total (xs ys zs : List Coord) (lo hi : Int) (h : axisRange ys = some (lo, hi)) :
+    ∃ tlo thi, axisRange (xs ++ ys ++ zs) = some (tlo, thi) ∧ tlo ≤ lo ∧ hi ≤ thi := by
+  rw [C13_range_append, C13_range_append, h]
+  cases axisRange xs with
+  | none =>
+    cases axisRange zs with
+    | none => exact ⟨lo, hi, rfl, by omega, by omega⟩
+    | some z => obtain ⟨a, b⟩ := z; exact ⟨min lo a, max hi b, rfl, by omega, by omega⟩
+  | some x =>
+    obtain ⟨c, d⟩ := x
+    cases axisRange zs with
+    | none => exact ⟨min c lo, max d hi, rfl, by omega, by omega⟩
+    | some z => obtain ⟨a, b⟩ := z; exact ⟨min (min c lo) a, max (max d hi) b, rfl, by omega, by omega⟩
+
+/-! non-vacuity: a line with a NaN and an infinite coordinate -/
+example : totalBounds [(.fin 1, .fin 2), (.nan, .fin 4), (.fin 5, .ninf)] = ⟨some (1, 5), some (2, 4)⟩ := by decide
+
 end SpVerif
